@@ -193,6 +193,7 @@ def verbose_and_quiet(inp, ri):
 
 def check_C16(rep):
     common_stage(rep)
+    FX.run_fixed(rep, "overloads.cpp", "g++", "", "outcome-depends-on-the-entry-point-overload-stream-or-verbosity")
     run = h1_stage(rep)
     if run is None: return rep
     nontriv = set(); samples = []
@@ -222,8 +223,10 @@ def check_C16(rep):
 
 def check_C11(rep):
     common_stage(rep)
+    FX.run_replay(rep, "D9", fixed=True); FX.run_replay(rep, "D15", fixed=True)
     run = h1_stage(rep)
     if run is None: return rep
+    cell_logic_tie(rep, run)
     nontriv = 0; samples = []; d12 = []
     for cid in sorted(run.real, key=int):
         r = run.real[cid]; m = run.model_rt.get(cid)
@@ -284,6 +287,9 @@ def check_C11(rep):
             if key not in lines_conf:
                 if key[0] in d12s and key[1] == eof: d12.append(cid)
                 else: rep.fail(kind="conflict-without-conflict-line", case=cid, state=key[0], term=names[key[1]], conflict=kind, grammar=run.meta[cid])
+        for key, kind in conf.items():
+            if key in lines_conf and lines_conf[key] != kind and not (key[0] in d12s and key[1] == eof):
+                rep.fail(kind="conflict-line-of-the-wrong-kind", case=cid, state=key[0], term=names[key[1]], real_conflict=("reduce/reduce" if kind == "rr" else "shift/reduce"), line_says=lines_conf[key], grammar=run.meta[cid])
         for key in lines_conf:
             if key not in conf: rep.fail(kind="conflict-line-without-conflict", case=cid, state=key[0], term=names[key[1]], grammar=run.meta[cid])
         if lines_conf:
@@ -295,16 +301,7 @@ def check_C11(rep):
     rep.cov["samples"] = samples
     return rep
 
-def sr_expected(c, r_idx, t):
-    rp = c["rp"][r_idx][0]; tp = c["tp"][t][0]
-    if rp > tp: return 4
-    if rp == tp and c["rp"][r_idx][1] == 1: return 4
-    return 2
-
-def check_C05(rep):
-    common_stage(rep)
-    run = h1_stage(rep)
-    if run is None: return rep
+def cell_logic_tie(rep, run):
     # correspondence: the cell logic of the mirror (scan_cell: the subject of the C05 theorems), re-run on the REAL item
     # sets, reproduces every real cell whose result does not depend on the order of items (no completed root item)
     for cid in sorted(run.real, key=int):
@@ -324,6 +321,18 @@ def check_C05(rep):
                     continue
                 if (k, sr) != (mk, msr) or (k == 4 and a != ma):
                     rep.tie_broken(f"correspondence H1/cell-logic: case {cid} ({run.meta[cid]['name']}) state {s_} col {col}: real cell {(k, a, sr)} but the mirror's scan of the real items gives {(mk, ma, msr)}")
+
+def sr_expected(c, r_idx, t):
+    rp = c["rp"][r_idx][0]; tp = c["tp"][t][0]
+    if rp > tp: return 4
+    if rp == tp and c["rp"][r_idx][1] == 1: return 4
+    return 2
+
+def check_C05(rep):
+    common_stage(rep)
+    run = h1_stage(rep)
+    if run is None: return rep
+    cell_logic_tie(rep, run)
     nontriv = 0; samples = []
     for cid in sorted(run.real, key=int):
         r = run.real[cid]
@@ -414,6 +423,10 @@ def check_C09(rep):
             nontriv.add((cid, j))
             if len(samples) < 2: samples.append({"grammar": run.meta[cid]["rules"], "bytes": b, "message": want})
     rep.cov["distinct_nontrivial"] = len(nontriv)
+    run3 = h3_stage(rep)
+    if run3 is not None:
+        h3_tables_and_runs(rep, run3, tables=False, runs=True)
+        rep.notes["dsl_inputs_checked"] = h3_token_oracle(rep, run3, "report")
     if np_cases:
         k = sorted(np_cases, key=int)[0]
         rep.known_finding(NP_TEXT + f" [{len(np_cases)} grammar(s) this run, e.g. {run.meta[k]['rules']}]")
@@ -465,6 +478,10 @@ def check_C10(rep):
         if (multi or "Recovering" in vtxt) and any(O.true_pos(b, s)[0] >= 2 for (_, s, _) in toks):
             nontriv.add((cid, j))
             if len(samples) < 2: samples.append({"bytes": b, "skipws": inp["skipws"], "skipnl": inp["skipnl"], "token_positions": [O.true_pos(b, s) for (_, s, _) in toks][:12]})
+    run3 = h3_stage(rep)
+    if run3 is not None:
+        h3_tables_and_runs(rep, run3, tables=False, runs=True)
+        rep.notes["dsl_inputs_positions_checked"] = h3_token_oracle(rep, run3, "position")
     rep.cov["distinct_nontrivial"] = len(nontriv)
     rep.cov["rule"] = "all H1 inputs (tabs, CR, VT, FF, newlines, 2- and 3-byte lexemes that may contain newlines, all four whitespace option combinations, inputs with lexical/syntax errors and recovery); every [line:col] in traces, messages and term values is compared with the true position of the term's first byte computed from the byte offsets by an independent tokeniser; non-trivial = distinct input with a term on line >= 2 after a multi-line lexeme or a recovery"
     rep.cov["samples"] = samples
@@ -472,6 +489,8 @@ def check_C10(rep):
 
 def check_C13(rep):
     common_stage(rep)
+    FX.run_fixed(rep, "context.cpp", "g++", "", "context-object-identity-constness-or-routing-wrong")
+    FX.run_fixed(rep, "context.cpp", "clang++", "-fsanitize=address,undefined -fno-sanitize-recover=all", "context-object-identity-constness-or-routing-wrong")
     run = h1_stage(rep)
     if run is None: return rep
     nontriv = set(); samples = []
@@ -566,6 +585,62 @@ def h3_tables_and_runs(rep, run, tables=True, runs=True):
         if runs:
             for j, (a, b) in enumerate(zip(r["inputs"], m["inputs"])):
                 if a != b: rep.tie_broken(f"correspondence H3/run: parser {gid} input {j}: result, context log or trace differ from the model's"); break
+
+def h3_token_oracle(rep, run3, what):
+    """H3 programs use the GENERATED lexer over real char/string/regex terms: the terms shifted or discarded (name, lexeme,
+    position) must be a prefix of the longest-match / first-listed tokenisation of the input, computed independently"""
+    import h3fam
+    n = 0
+    for gid in sorted(run3.real):
+        r = run3.real[gid]; meta = run3.meta[gid]
+        names = [bytes(t["name"]).decode("latin1") for t in meta["terms"]] + ["<eof>", "<error_recovery_token>"]
+        if r["skipped"]: continue
+        cases = split_h3_inputs(run3, gid)
+        for j, (flags, b) in enumerate(cases):
+            if j >= len(r["inputs"]): break
+            ri = r["inputs"][j]
+            if ri["res"] == "LOOP": continue
+            toks, end = h3fam.py_tokenise(meta, b, flags)
+            vtxt = ri["err"] if (flags & 1) else ri["err2"]
+            k = 0; n += 1
+            for (ln, col, ch, msg) in O.parse_trace(vtxt):
+                if ch != "PARSE": continue
+                if (msg.startswith("Shift to ") and not msg.endswith("term: <error_recovery_token>")) or msg.startswith("Recovery, consuming term"):
+                    if k >= len(toks):
+                        rep.fail(kind=what + "-more-terms-delivered-than-the-input-holds", parser=gid, bytes=list(b), flags=flags, terms=[bytes(t["data"]).decode("latin1") for t in meta["terms"]]); break
+                    t, s0, l0 = toks[k]; pos = O.true_pos(list(b), s0)
+                    if msg.startswith("Shift to "):
+                        lex = msg.split("term: ", 1)[1]
+                        if lex.encode("latin1", "replace") != bytes(b[s0:s0 + l0]) or (ln, col) != pos:
+                            rep.fail(kind=what + "-term-is-not-the-longest-match-or-position-wrong", parser=gid, bytes=list(b), flags=flags, terms=[bytes(x["data"]).decode("latin1") for x in meta["terms"]],
+                                     observed=f"[{ln}:{col}] {lex!r}", expected=f"[{pos[0]}:{pos[1]}] {bytes(b[s0:s0+l0])!r} (term {names[t]})"); break
+                    k += 1
+                elif msg.startswith("Recognized "):
+                    nm = msg[len("Recognized "):].rstrip(" ")
+                    want = names[toks[k][0]] if k < len(toks) else ("<eof>" if end[0] == "eof" else None)
+                    wpos = O.true_pos(list(b), toks[k][1] if k < len(toks) else end[1])
+                    if nm != want or (ln, col) != wpos:
+                        rep.fail(kind=what + "-recognised-term-differs-from-longest-match-first-listed", parser=gid, bytes=list(b), flags=flags, terms=[bytes(x["data"]).decode("latin1") for x in meta["terms"]],
+                                 observed=f"[{ln}:{col}] {nm}", expected=f"[{wpos[0]}:{wpos[1]}] {want}"); break
+                elif msg.startswith("Unexpected character"):
+                    wpos = O.true_pos(list(b), end[1])
+                    if end[0] != "fail" or k != len(toks) or (ln, col) != wpos:
+                        rep.fail(kind=what + "-unexpected-character-although-a-term-matches-or-wrong-position", parser=gid, bytes=list(b), flags=flags, terms=[bytes(x["data"]).decode("latin1") for x in meta["terms"]], observed=f"[{ln}:{col}] {msg}"); break
+    return n
+
+def split_h3_inputs(run3, gid):
+    k, cid = gid.split(".")
+    key = (run3.dir, k)
+    cache = run3.__dict__.setdefault("_inputs", {})
+    if key not in cache:
+        res = {}; cur = None
+        for line in open(f"{run3.dir}/p{k}.cases"):
+            p = line.split()
+            if not p: continue
+            if p[0] == "CASE": cur = p[1]; res[cur] = []
+            elif p[0] == "IN": n = int(p[2]); res[cur].append((int(p[1]), bytes(int(x) for x in p[3:3 + n])))
+        cache[key] = res
+    return cache[key][cid]
 
 # =============================================================== H2-based properties
 from h2fam import H2Run
@@ -663,6 +738,13 @@ def check_C04(rep):
     run = h2_stage(rep)
     if run is None: return rep
     dfa_property(rep, run, "termset")
+    run3 = h3_stage(rep)
+    if run3 is not None:
+        for gid in sorted(run3.real):
+            r = run3.real[gid]; m = run3.model.get(gid)
+            if m is None or r["dfa"] != m["dfa"]: rep.tie_broken(f"correspondence H3/lexer-automaton: parser {gid}: lexer_sm built by the real create_lexer differs from the model's")
+        h3_tables_and_runs(rep, run3, tables=False, runs=True)
+        rep.notes["dsl_inputs_tokenised"] = h3_token_oracle(rep, run3, "lexer")
     rep.cov["rule"] = "term sets of 1-6 terms mixing chars, strings and patterns: forced overlaps (keyword vs identifier in both orders, '=' vs '==', prefix strings, the same string twice, more than four terms accepting one string) and random sets; strings: all strings up to a bound over the terms' alphabet, every string term, each with one byte appended and removed. Non-trivial = distinct term set on which at least two different terms win. Whitespace skipping and lexeme slices are covered by the H1 carrier with the generated lexer (C10/C16 runs) and the H3 programs."
     return rep
 
@@ -670,6 +752,9 @@ import patsyntax
 
 def check_C17(rep):
     common_stage(rep)
+    FX.run_fixed(rep, "undeclared.cpp", "g++", "", "undeclared-symbol-or-empty-name-accepted")
+    for f in ("bad_pattern.cpp", "bad_pattern2.cpp", "empty_alternative.cpp", "undeclared_nterm.cpp"):
+        FX.must_not_compile(rep, f, "g++"); FX.must_not_compile(rep, f, "clang++")
     run = h2_stage(rep)
     if run is None: return rep
     nontriv = set(); samples = []
@@ -748,6 +833,9 @@ def check_C12(rep):
         # stack capacity with the std::vector stacks of the H1 buffers never throws
         for cid, j, inp, ri, mi in each_input(run):
             if ri["res"].startswith("THROW"): rep.fail(kind="parse-threw", case=cid, input=inp, grammar=run.meta[cid], observed=ri["res"][:120])
+    FX.run_replay(rep, "D10", fixed=True)
+    FX.run_replay(rep, "D10", fixed=True, cxx="clang++", flags="-fsanitize=undefined -fno-sanitize-recover=all")   # limits swept around the need: an overflow by one is an out-of-bounds index
+    FX.run_fixed(rep, "cstring_stack.cpp", "clang++", "-fsanitize=undefined -fno-sanitize-recover=all", "fixed-stack-capacity-insufficient-or-overflowed")
     rep.cov["distinct_nontrivial"] = len(nontriv)
     rep.cov["rule"] = "every accepted pattern of the H2 families: dfa_size_analyzer prediction vs states actually created by the real dfa_builder (nested and large repetition counts included); carrier C (custom limits 24 states / 60 items per state) vs carrier A (default limits) on the same grammars: loud failure or identical table; default limits never overflow. Non-trivial = distinct pattern with a repetition count, or grammar whose construction hits a custom limit. The cstring_buffer stack capacity N+EmptyRulesCount+1 is known finding D8 (H3 replay)."
     rep.cov["samples"] = samples
@@ -843,6 +931,8 @@ def check_C06(rep):
     # the compiled code under sanitizers, all buffer kinds, checking user buffer, long / deep / binary inputs
     FX.run_fixed(rep, "sanitize.cpp", "clang++", "-O1 -g -fsanitize=address,undefined -fno-sanitize-recover=all", "sanitizer-or-buffer-check-failure", run_prefix="ulimit -s unlimited;")
     FX.run_replay(rep, "D6", fixed=True); FX.run_replay(rep, "D7", fixed=True)
+    FX.run_replay(rep, "D10", fixed=True, cxx="clang++", flags="-fsanitize=undefined -fno-sanitize-recover=all")
+    FX.run_fixed(rep, "cstring_stack.cpp", "clang++", "-fsanitize=undefined -fno-sanitize-recover=all", "fixed-stack-capacity-insufficient-or-overflowed")
     FX.run_replay(rep, "D6", fixed=True, cxx="clang++", flags="-fsanitize=address,undefined -fno-sanitize-recover=all")
     FX.run_replay(rep, "D7", fixed=True, cxx="clang++", flags="-fsanitize=address,undefined -fno-sanitize-recover=all")
     known_D8(rep)
@@ -855,7 +945,9 @@ def check_C07(rep):
     common_stage(rep)
     ok1 = FX.run_fixed(rep, "constexpr_agree.cpp", "g++", "", "constant-evaluation-and-run-time-disagree")
     ok2 = FX.run_fixed(rep, "constexpr_agree.cpp", "clang++", "", "constant-evaluation-and-run-time-disagree")
+    FX.run_fixed(rep, "overloads.cpp", "clang++", "", "outcome-depends-on-the-entry-point-overload")
     FX.run_replay(rep, "D6", fixed=True, cxx="clang++")       # static_assert on a lexically wrong constant parse (clang's evaluator is the strict one)
+    FX.run_fixed(rep, "cstring_stack.cpp", "g++", "", "cstring_buffer-result-differs-from-the-other-buffers")
     run = h1_stage(rep)
     nontriv = 0
     if run is not None:
